@@ -54,6 +54,13 @@ class World:
         self.X = np.array([[0.8, 2.0], [1.5, 3.0], [2.5, 2.5], [4.0, 5.0], [0.0, 1.0]])
         self.X3 = np.array([[0.8, 2.0, 1.0], [2.5, 2.5, 3.0]])
         self.Xneg = np.array([-1.0, 0.0, 0.5, 2.0, 7.0])
+        # caller-owned option containers
+        self.limits = [(0, 8), (0, 10)]
+        self.limits_rev = [(8, 0), (0, 10)]                 # reversed tuple: accepted (min/max are taken)
+        self.limits_arr = np.array([[0.0, 8.0], [10.0, 0.0]])
+        self.deltas = [0.25, 0.25]
+        self.steps = [1.0, 2.0, 3.0]
+        self.sem = {"names": ["Wave height", "Period"], "symbols": ["H_s", "T_z"], "units": ["m", "s"]}
         self.P = np.array([0.1, 0.5, 0.99])
         self.S = np.asarray(self.A.draw_sample(400, random_state=12), dtype=float)
         g = getattr(virocon, getter)
@@ -69,7 +76,8 @@ class World:
         self.tmp = None
 
     def snapshot_parts(self, digits=None):
-        parts = {"A": self.A, "A3": self.A3, "X": self.X, "X3": self.X3, "Xneg": self.Xneg, "P": self.P, "S": self.S, "D": self.D, "T": self.T,
+        parts = {"A": self.A, "A3": self.A3, "X": self.X, "X3": self.X3, "Xneg": self.Xneg, "P": self.P,
+                 "options": [self.limits, self.limits_rev, self.limits_arr, self.deltas, self.steps, self.sem], "S": self.S, "D": self.D, "T": self.T,
                  "W": self.W, "B": self.B, "B2": self.B2, "Bdesc": self.Bdesc, "B2desc": self.B2desc}
         return {k: history.digest(v, digits if k in ("W", "B", "B2", "Bdesc", "B2desc") else None) for k, v in parts.items()}
 
@@ -120,7 +128,8 @@ def ev_or(w):
 
 def ev_design(w):
     c = IFORMContour(w.A, 0.05, n_points=30)
-    return _res(calculate_design_conditions(c, steps=4))
+    return (_res(calculate_design_conditions(c, steps=4)), _res(calculate_design_conditions(c, steps=w.steps)),
+            _res(calculate_design_conditions(c, steps=w.steps, swap_axis=True)))
 
 
 def ev_plots(w):
@@ -129,8 +138,8 @@ def ev_plots(w):
     import matplotlib.pyplot as plt
     from virocon import plot_2D_contour, plot_2D_isodensity, plot_dependence_functions
     c = IFORMContour(w.A, 0.05, n_points=30)
-    plot_2D_contour(c, sample=w.S, design_conditions=True)
-    plot_2D_isodensity(w.A, w.S, n_grid_steps=20)
+    plot_2D_contour(c, sample=w.S, design_conditions=True, semantics=w.sem)
+    plot_2D_isodensity(w.A, w.S, n_grid_steps=20, limits=w.limits, semantics=w.sem)
     plot_dependence_functions(w.A)
     plt.close("all")
     return "plots"
@@ -140,7 +149,7 @@ def ev_save(w):
     d = tempfile.mkdtemp(prefix="vmc_c19_")
     try:
         c = IFORMContour(w.A, 0.05, n_points=10)
-        save_contour_coordinates(c, os.path.join(d, "c"))
+        save_contour_coordinates(c, os.path.join(d, "c"), w.sem)
         with open(os.path.join(d, "c.txt")) as f:
             return history.digest(f.read())
     finally:
@@ -197,7 +206,18 @@ def ev_two_point_sets(w):
                     _res(w.A.distributions[1].pdf(X_[:, 1], given=X_[:, 0])), _res(w.A.distributions[1].icdf(P_, given=X_[:3, 0])),
                     _res(IFORMContour(w.A, float(P_[0]) / 10, n_points=12).coordinates),
                     _res(HighestDensityContour(w.A, float(P_[1]) / 3, limits=[(0, 8), (0, 10)], deltas=[0.5, 0.5]).coordinates)))
+    # sample-based contours with two different samples of the same size
+    S2 = w.S[::-1] * 1.07
+    for S_ in (w.S, S2):
+        np.random.seed(5)
+        out.append((_res(DirectSamplingContour(w.A, 0.05, deg_step=30, sample=S_).coordinates),
+                    _res(AndContour(w.A, 0.1, deg_step=30, sample=S_, allowed_error=0.2).coordinates)))
     fresh, _ = zoo.build_model(["WeibullDistribution", "LogNormalDistribution"], [None, 0], "A")
+    np.random.seed(5)
+    ref2 = (_res(DirectSamplingContour(fresh, 0.05, deg_step=30, sample=S2).coordinates),
+            _res(AndContour(fresh, 0.1, deg_step=30, sample=S2, allowed_error=0.2).coordinates))
+    if out[3] != ref2:
+        raise AssertionError("sample-based contour of a second sample differs from the one computed with fresh objects")
     ref = (_res(fresh.pdf(X2)), _res(fresh.distributions[0].cdf(X2[:, 0])), _res(fresh.distributions[0].icdf(P2)),
            _res(fresh.distributions[1].pdf(X2[:, 1], given=X2[:, 0])), _res(fresh.distributions[1].icdf(P2, given=X2[:3, 0])),
            _res(IFORMContour(fresh, float(P2[0]) / 10, n_points=12).coordinates),
@@ -229,7 +249,9 @@ EVENTS = {
     "draw_sample": ("eval", lambda w: _res(w.A.draw_sample(50, random_state=9))),
     "iform": ("eval", _contour(IFORMContour, n_points=20)),
     "isorm": ("eval", _contour(ISORMContour, n_points=20)),
-    "hdc": ("eval", lambda w: _res(HighestDensityContour(w.A, 0.2, limits=[(0, 8), (0, 10)], deltas=[0.25, 0.25]).coordinates)),
+    "hdc": ("eval", lambda w: _res(HighestDensityContour(w.A, 0.2, limits=w.limits, deltas=w.deltas).coordinates)),
+    "hdc_reversed_limits": ("eval", lambda w: (_res(HighestDensityContour(w.A, 0.2, limits=w.limits_rev, deltas=w.deltas).coordinates),
+                                               _res(HighestDensityContour(w.A, 0.2, limits=w.limits_arr, deltas=0.5).coordinates))),
     "direct_sampling": ("eval", ev_ds),
     "and_contour": ("eval", ev_and),
     "or_contour": ("eval", ev_or),
@@ -424,7 +446,7 @@ def run_case(case):
 def main(ctx):
     ctx.rule = ("explicit-state BFS per predefined getter (6): state = history of events, canonical form = deep digest of every "
                 "attribute of the models A (2-D), A3 (3-D), both getter results B/B' (descriptions and models), the template T and "
-                "its conditional wrapper, and the caller-owned arrays X, P, S, D; alphabet = 24 events (pdf/cdf/icdf of distributions "
+                "its conditional wrapper, and the caller-owned arrays X, P, S, D; alphabet = 25 events (pdf/cdf/icdf of distributions "
                 "and joint model with array, list and read-only inputs, marginals, seeded sampling, IFORM, ISORM, HDC, direct "
                 "sampling, AND, OR, design conditions, three plot functions, save, 3-D evaluation, getter again, fit(B), fit(B'), "
                 "fit(wrapper)); search until the canonical state set closes. Every transition re-executes the event on fresh "
@@ -434,7 +456,7 @@ def main(ctx):
     q = ctx.quick
     cases = []
     all_events = [e for e in EVENTS]
-    heavy = ["hdc", "plots", "and_contour", "or_contour", "joint_cdf", "marginals", "pdf_3d"]
+    heavy = ["hdc", "hdc_reversed_limits", "plots", "and_contour", "or_contour", "joint_cdf", "marginals", "pdf_3d"]
     for i, g in enumerate(GETTERS):
         three_d = True
         ev = list(all_events)
